@@ -1,6 +1,7 @@
 package main
 
 import (
+	"strings"
 	"fmt"
 	"os"
 	"go/types"
@@ -222,9 +223,23 @@ func (in *Interp) recordMapAccess(m *MapObj, write bool, pos tokenPos) {
 // location, at least one a write, that are not ordered by a common mutex
 // (held by both, in write mode by every writer).
 func (in *Interp) locksetConflict() (Access, Access, bool) {
+	// group by object; two accesses touch the same memory when their paths are equal or
+	// one is a prefix of the other (a struct access covers its fields)
 	byKey := map[string][]int{}
+	objOf := func(k string) string {
+		if i := strings.IndexByte(k, '.'); i >= 0 {
+			return k[:i]
+		}
+		return k
+	}
+	overlap := func(x, y string) bool {
+		if len(x) > len(y) {
+			x, y = y, x
+		}
+		return x == y || (strings.HasPrefix(y, x) && y[len(x)] == '.')
+	}
 	for i, a := range in.accesses {
-		byKey[a.Key] = append(byKey[a.Key], i)
+		byKey[objOf(a.Key)] = append(byKey[objOf(a.Key)], i)
 	}
 	keys := make([]string, 0, len(byKey))
 	for k := range byKey {
@@ -236,7 +251,7 @@ func (in *Interp) locksetConflict() (Access, Access, bool) {
 		for x := 0; x < len(idx); x++ {
 			for y := x + 1; y < len(idx); y++ {
 				a, c := in.accesses[idx[x]], in.accesses[idx[y]]
-				if a.Op == c.Op || (!a.Write && !c.Write) {
+				if a.Op == c.Op || (!a.Write && !c.Write) || !overlap(a.Key, c.Key) {
 					continue
 				}
 				protected := false
